@@ -378,20 +378,29 @@ func (s *ClientSession) doMsg(stream *Stream) error {
 	case base.RtmpTypeIdVideo:
 		s.onReadRtmpAvMsg(stream.toAvMsg())
 	default:
+		// what the upstream sends is not under our control: ignore the message, like ServerSession does
 		Log.Errorf("[%s] read unknown message. typeid=%d, %s", s.UniqueKey(), stream.header.MsgTypeId, stream.toDebugString())
-		panic(0)
 	}
 	return nil
 }
 
 func (s *ClientSession) doAck(stream *Stream) error {
+	if stream.msg.Len() < 4 {
+		return base.NewErrRtmpShortBuffer(4, int(stream.msg.Len()), "ClientSession::doAck")
+	}
 	seqNum := bele.BeUint32(stream.msg.buff.Bytes())
 	Log.Infof("[%s] < R Acknowledgement. ignore. sequence number=%d.", s.UniqueKey(), seqNum)
 	return nil
 }
 func (s *ClientSession) doUserControl(stream *Stream) error {
+	if stream.msg.Len() < 2 {
+		return base.NewErrRtmpShortBuffer(2, int(stream.msg.Len()), "ClientSession::doUserControl")
+	}
 	userControlType := bele.BeUint16(stream.msg.buff.Bytes())
 	if userControlType == uint16(base.RtmpUserControlPingRequest) {
+		if stream.msg.Len() < 6 {
+			return base.NewErrRtmpShortBuffer(6, int(stream.msg.Len()), "ClientSession::doUserControl ping request")
+		}
 		stream.msg.buff.Skip(2)
 		timestamp := bele.BeUint32(stream.msg.buff.Bytes())
 		return s.packer.writePingResponse(s.conn, timestamp)
